@@ -1239,6 +1239,12 @@ PROBES_REFUSED = [
     ('lambda with *args', 'def f(x):\n    g = lambda *a: a\n    return g\n'),
     ('class attribute chain', 'def f(x):\n    x.data.items.append(1)\n'),
     ('set attribute through setattr on unknown', 'def f(x):\n    x.__dict__["a"] = 1\n'),
+    ('unbound method call', 'def f(x):\n    list.append(x, 1)\n'),
+    ('unbound method call of an EoN class', 'def f(L, x):\n    _ListDict_.insert(L, x)\n'),
+    ('computed callee: getattr', 'def f(x):\n    getattr(x, "append")(1)\n'),
+    ('computed callee: subscript', 'def f(x, hs):\n    hs[0](x)\n'),
+    ('bound mutating method as a value', 'def f(x):\n    m = x.append\n    m(1)\n'),
+    ('class statement', 'def f(x):\n    class K:\n        pass\n    return K\n'),
     ('await', 'async def g(x):\n    return x\ndef f(x):\n    y = g(x)\n    return y\n'),
 ]
 PROBES_ACCEPTED = [
